@@ -981,11 +981,25 @@ def expand_ppoly_script(r, tabseed, fixed, hist, dim):
     cmds = [{"op": "reset"}]
     live = {}          # obj -> (bp, nc, init)
 
+    # how data version 2 relates to version 1 of the same sizes: independent, the same breakpoints with other coefficients, the same
+    # coefficients on other breakpoints, one coefficient entry changed ('nothing changed' shortcuts that compare part of the inputs)
+    mode = ("any", "same_bp", "same_C", "one_coef")[(len(hist) + sum(len(str(a)) for a in hist)) % 4]
+
     def concrete(v, kind, nseg, nc):
         rr = gen.Rng(tabseed * 131 + v * 17 + nseg * 5 + nc)
         cnc = PP_NC[nc]
         cns = {1: 3, 2: 34}[nseg]
         bp, C = pp_data(rr, dim, cns, cnc, t0=0.5)
+        if v == 2 and mode != "any":
+            r1 = gen.Rng(tabseed * 131 + 1 * 17 + nseg * 5 + nc)
+            bp1, C1 = pp_data(r1, dim, cns, cnc, t0=0.5)
+            if mode == "same_bp":
+                bp = bp1
+            elif mode == "same_C":
+                C = C1
+            else:
+                bp, C = bp1, [list(row) for row in C1]
+                C[len(C) // 2][0] = C[len(C) // 2][0] + 1.5
         if kind == "few_bp":
             bp, C = bp[:1], []
         elif kind == "row_mismatch":
